@@ -96,6 +96,7 @@ type PSVSigElement struct {
 // PSVInfo is the decoded PSV0 part.
 type PSVInfo struct {
 	Present       bool
+	Complete      bool // the whole part decoded consistently; cross-checks with metadata only run when set
 	InfoSize      uint32
 	Version       int // 0..3 as implied by InfoSize
 	Stage         int // PSVShaderKind byte (-1 when version 0)
@@ -180,7 +181,7 @@ var allRules = []string{
 	"bitstream.define-abbrev", "bitstream.abbrev-id", "bitstream.blockinfo", "bitstream.eof",
 	"bitstream.trailing", "bitstream.nesting", "bitstream.record",
 	"module.version", "module.type-table", "module.type-ref", "module.global", "module.function-decl",
-	"module.paramattr", "module.constants", "module.metadata", "module.metadata-kind", "module.vst",
+	"module.paramattr", "module.constants", "module.const-range", "module.metadata", "module.metadata-kind", "module.vst",
 	"module.function-count",
 	"func.declareblocks", "func.record", "func.operand", "func.type-ref", "func.block-ref",
 	"func.terminators", "func.type-check", "func.ssa", "func.enum", "func.vst", "func.md-attachment",
